@@ -503,6 +503,10 @@ func apiAnalyze(ctx context.Context, r *rand.Rand, e *engine.Engine, stub *apiSt
 		limit = r.Intn(4)
 		opt.DepthLimit = lang.Some(uint(limit))
 	}
+	if r.Intn(3) == 0 {
+		// a clock with plenty of time changes nothing about the depth the analysis runs to
+		opt.TimeControl = lang.Some(searchctl.TimeControl{White: time.Hour, Black: time.Hour, Moves: r.Intn(2) * 30})
+	}
 	ch, err := e.Analyze(ctx, opt)
 	ev := out.M{"op": "api", "kind": "analyze", "arg": "", "bad": 0, "err": proj.B2I(err != nil), "limit": limit, "closed": -1, "seen": 0, "ttseen": -1}
 	if err == nil {
